@@ -8,7 +8,8 @@ Lists are `,`-separated hex strings, `.` is the empty list, `-` the empty byte s
 
 * `run <cd> <names> <vars> <lines>` — a whole script: `vars` are the `Env.Vars` strings at the end of
   Setup, `lines` the script lines.  One result per line, `;`-separated:
-  `E` tokenizer error, `N` no arguments, `V` an `env` line (applied with cmdEnv),
+  `E` tokenizer error, `N` no arguments, `V` an `env` line (applied with cmdEnv) or a `setvar k v` line
+  (the harness's custom command calling TestScript.Setenv),
   `P:<args>|<Getenv of every name>` a `probe` line, `X:<child environment strings>` / `X:nul` an `exec` line,
   `O:<args>` anything else.
 * `parse <vars> <line>` — `E` or `A:<args>`.
@@ -40,6 +41,11 @@ def stepLine (cd : Bytes) (names : List Bytes) (ts : TS) (line : Bytes) : TS × 
   | .ok (cmd :: args) =>
     if cmd = lit "env" then
       (if args.isEmpty then ts else cmdEnv ts args, "V")
+    else if cmd = lit "setvar" then
+      -- the harness's custom command: `ts.Setenv(args[0], args[1])` when given exactly two arguments
+      (match args with
+       | [k, v] => (ts.setenv k v, "V")
+       | _ => (ts, "V"))
     else if cmd = lit "probe" then
       (ts, "P:" ++ showList (cmd :: args) ++ "|" ++ showList (names.map ts.getenv))
     else if cmd = lit "exec" then
